@@ -80,6 +80,16 @@ CASES = [
      "x = 1.0\n  select case (i)\n case (1)\n x = 2.0\n end select\n  z = x", 'RAW:1', {'x'}, set()),
     (('read_after_write_vars', 'FindReads.visit_LeafNode'),
      "a = 1.0\n  where (m1)\n a = 2.0\n end where\n  z = a(1)", 'RAW:1', {'a'}, set()),
+    (('read_after_write_vars', 'FindReads.visit_Loop'), "x = 1.0\n  do i = 1, 3, -1\n x = 2.0\n end do\n  z = x", 'RAW:1',
+     {'x'}, set()),
+    (('read_after_write_vars', 'FindReads.visit_Loop'), "x = 1.0\n  do i = 5, 1\n x = 2.0\n end do\n  z = x", 'RAW:1',
+     {'x'}, set()),
+    (('read_after_write_vars', 'FindReads.visit_Loop'), "i = 5\n  x = real(i)\n  do i = 1, n\n a(i) = 0.\n end do", 'RAW:1',
+     {'i'}, set()),
+    (('loop_carried_dependencies',), "do i = 1, n\n if (flag) then\n x = a(i)\n else\n y = x\n end if\n end do", 'LCD',
+     {'x'}, set()),
+    (('loop_carried_dependencies',), "do i = 1, n\n where (m1)\n a = 1.0\n elsewhere (m2)\n b = a\n end where\n end do",
+     'LCD', {'a'}, set()),
     (('read_after_write_vars', 'FindReads.visit_Conditional'),
      "x = 1.0\n  if (flag) then\n x = 2.0\n else\n x = 3.0\n end if\n  z = y", 'RAW:1', set(), set()),
 ]
